@@ -21,8 +21,9 @@ LEVEL_TEXT = ("Decides clauses C07-a..d: for each generic IntoHandler impl, with
               'ram hands from_param the percent-decoded text; a file part of a Multipart body is reported as `no file` (Option<File> = None, Vec<File> shorter) only '
               "when it has neither a filename nor content (C07-e, the multipart codec's empty-file and kind-mismatch decisions re-evaluated: what a typed body extrac"
               'tor hands the handler). C07-f: assume_one_param answers slot 0 and assume_two_params slots (0, 1) of the captured parameters by constant index (the k-'
-              'th handler parameter is the k-th captured segment, also when the route captures more than the handler takes). Decides these clauses, not the exactness'
-              ' of every delivered value.')
+              'th handler parameter is the k-th captured segment, also when the route captures more than the handler takes). The arity assertion of Router::finalize '
+              'runs for every handler of every route under no other condition, and every parse of an integer FromParam impl is a whole-parameter parse. Decides these'
+              ' clauses, not the exactness of every delivered value.')
 
 IH = "ohkami::fang::handler::into_handler::IntoHandler"
 
